@@ -207,6 +207,12 @@ class Checker:
                         confirmed = True
                         v["note"] = ((v.get("note") or "") + " [inconsistent wrong answers across fresh processes: %r]" % (o2[step] if step < len(o2) else o2,)).strip()
                         break
+                if not confirmed and observed in ("CRASH", "HANG") and ";".join(ops) in execpool.SEQ_CRASH:
+                    # the process dies at this program only after the programs it had run before (reproduced twice in fresh processes
+                    # by the executor pool): the whole sequence is the counterexample
+                    v["sequence"] = execpool.SEQ_CRASH[";".join(ops)]
+                    v["note"] = ((v.get("note") or "") + " [dies only after the %d programs the same process ran before: see 'sequence']" % (len(v["sequence"]) - 1)).strip()
+                    confirmed = True
                 if not confirmed:
                     raise MachineryError("violation did not reproduce in a fresh process: %s" % ops)
             st.violations.append(v)
@@ -416,6 +422,26 @@ def replay(path):
         sys.stderr.write(log[-2000:])
         print("MACHINERY: cannot build %s" % v["build"])
         return 2
+    if v.get("sequence"):
+        ex = execpool.Executor(v["build"])
+        died = None
+        try:
+            for i, prog in enumerate(v["sequence"]):
+                alone = [None]
+                d2, hung = ex._run_batch([prog], 0, alone)
+                if d2 != 1:
+                    died = i
+                    break
+        finally:
+            ex._kill()
+        print("sequence of %d programs in one process; recorded: the process dies at the last one" % len(v["sequence"]))
+        print("last    : %s" % v["sequence"][-1][:300])
+        if died is None:
+            print("replay: the current tree runs the whole sequence")
+            return 0
+        print("now     : the process dies at program %d of %d" % (died + 1, len(v["sequence"])))
+        print("VIOLATION property=%s replay=%s" % (v["property"], path))
+        return 1
     ex = execpool.Executor(v["build"])
     try:
         obs = ex.run(";".join(v["program"]))
